@@ -60,6 +60,7 @@ type epubCfg struct {
 	Enc    []string `json:"enc"`
 	Algo   string   `json:"algo"`
 	URI    string   `json:"uri"`
+	RFirst bool     `json:"rfirst"`
 }
 
 func epubMembers(e epubCfg) []zmember {
@@ -78,8 +79,9 @@ func epubMembers(e epubCfg) []zmember {
 		{"OEBPS/fonts/h.woff", "wOFFbytes", false},
 		{"OEBPS/img/i.png", "\x89PNG\r\n\x1a\nimg", false},
 	}
-	if e.Rights {
-		ms = append(ms, zmember{"META-INF/rights.xml", `<?xml version="1.0"?><rights xmlns="http://ns.adobe.com/adept"/>`, false})
+	rights := zmember{"META-INF/rights.xml", `<?xml version="1.0"?><rights xmlns="http://ns.adobe.com/adept"/>`, false}
+	if e.Rights && e.RFirst {
+		ms = append(ms, rights)
 	}
 	if len(e.Enc) > 0 {
 		algo := map[string]string{
@@ -101,6 +103,9 @@ func epubMembers(e epubCfg) []zmember {
 		}
 		b.WriteString(`</encryption>`)
 		ms = append(ms, zmember{"META-INF/encryption.xml", b.String(), false})
+	}
+	if e.Rights && !e.RFirst {
+		ms = append(ms, rights)
 	}
 	if e.URI == "upper" {
 		// the content documents carry upper-case suffixes, consistently in the archive,
